@@ -143,6 +143,10 @@ func checkMetricTables(w *W, md *metricDesc, repeats int) {
 	}
 	cmp := func(c Case, got float64, want string) {
 		w.Eval(1)
+		if got != got { // NaN: the Value method no longer has the known signature (see lib.APIChanged)
+			w.Count("value_method_signature_changed")
+			return
+		}
 		if got != pf(want) {
 			w.Violate(Violation{Monitor: "C20", Check: "the weight equals the specification's table (identical float64)", Case: c, Observed: got, Expected: pf(want)})
 		}
@@ -270,6 +274,9 @@ func runC20(r *Run) int {
 	// version labels
 	checkVersions(w, cands, repeats)
 	w.Merge()
+	if ch := lib.APIChanged(); len(ch) > 0 {
+		r.Inconclusive("the dependent-weight Value method of %v no longer has the signature the harness knows; those weights were not checked", ch)
+	}
 	r.Extra("metrics_checked", wsum.Load())
 	r.Extra("candidate_strings_per_metric", len(cands))
 	r.Extra("lookup_repeats_per_code", repeats)
